@@ -192,18 +192,78 @@ def run_c15(h, rho, prepeek, done):
                     d = values_differ(ex, s4.pc, v1, v2, 'item')
                     if d:
                         out.append(ST.Mismatch(['clone'], 'after the original advanced, the clone yields a different item for the same input (%s): %s' % (where, d[0]), d[1] or h.best_model(s4.pc), {}))
-                    elif len(ev1) != len(s4.events):
-                        out.append(ST.Mismatch(['clone'], 'the clone runs a different number of actions than the original (%s)' % where, h.best_model(s4.pc), {}))
-    for s in starts:
-        check_clone(s, 'at the start state')
-        if not prepeek and not done:
-            same_stream(s, 'cloned at the start state')
-        s.events = []
-        for kind, s2, val in ex.call_fn(s, nxt, [Ref(0, 'lx')]):
-            h.stats['paths'] += 1
-            if kind != 'return':
+                    else:
+                        de = events_differ(s4, ev1, s4.events)
+                        if de:
+                            out.append(ST.Mismatch(['clone'], 'the actions of the clone see something else than the actions of the original saw (%s): %s' % (where, de[0]), de[1] or h.best_model(s4.pc), {}))
+    def events_differ(sx, ev_a, ev_b):
+        """action logs (rule, match_loc, peek[, match_ slice]) of two calls: None | (what, model)"""
+        if len(ev_a) != len(ev_b):
+            return ('number of actions %d / %d' % (len(ev_a), len(ev_b)), None)
+        for j, (a_, b_) in enumerate(zip(ev_a, ev_b)):
+            for q, (x_, y_) in enumerate(zip(a_, b_)):
+                d_ = values_differ(ex, sx.pc, x_, y_, 'action %d %s' % (j, ('rule', 'match_loc', 'peek', 'match_')[min(q, 3)]))
+                if d_:
+                    return d_
+        return None
+
+    def run_ahead(s, where):
+        """only when next()/clone() touch state outside the lexer value: the original runs to the end of its stream
+        (all calls), then the clone makes its first call - it must yield what the original's first call yielded"""
+        res = ex.call_fn(s.fork(), clone_fn, [Ref(0, 'lx')])
+        for kind, s2, cl in res:
+            if kind != 'return' or not getattr(ex, 'hidden_state', False):
                 continue
-            got = h.item_shape(val)
-            h.cover({'tok': 'token', 'invalid': 'invalid', 'custom': 'custom', 'none': 'none'}[got[0]])
-            check_clone(s2, 'after an item of kind ' + got[0])
+            s2.root()['cl'] = cl
+            dbase = len(s2.aux.get('decisions', ()))
+            s2.aux['dec_base'] = dbase
+
+            def go(sx, k, first, script1, ev_first=None):
+                sx.events = []
+                for k1, s3, v1 in ex.call_fn(sx, nxt, [Ref(0, 'lx')]):
+                    h.stats['paths'] += 1
+                    if k1 != 'return':
+                        continue
+                    f1 = first if first is not None else v1
+                    ev1 = ev_first if ev_first is not None else list(s3.events)
+                    sc1 = script1 if script1 is not None else list(s3.aux.get('decisions', ())[dbase:])
+                    ended = isinstance(v1, E) and v1.v == 'None'
+                    if not ended and k > 0:
+                        s3.aux['dec_base'] = len(s3.aux.get('decisions', ()))
+                        go(s3, k - 1, f1, sc1, ev1)
+                        continue
+                    s3.events = []
+                    s3.aux['script'] = list(sc1)
+                    s3.aux['decisions'] = ()
+                    for k2, s4, v2 in ex.call_fn(s3, nxt, [Ref(0, 'cl')]):
+                        h.stats['paths'] += 1
+                        if k2 != 'return':
+                            out.append(ST.Mismatch(['clone'], 'next() on the clone panics after the original ran ahead (%s)' % where, h.best_model(s4.pc), {}))
+                            continue
+                        d = values_differ(ex, s4.pc, f1, v2, 'item') or events_differ(s4, ev1, s4.events)
+                        if d:
+                            out.append(ST.Mismatch(['clone'], 'after the original ran to the end of its stream, the clone yields a different first item / action log than the original did (%s): %s' % (where, d[0]), d[1] or h.best_model(s4.pc), {}))
+            go(s2, h.N + 1, None, None)
+
+    from mirse.exec import OverBudget
+    try:
+        for s in starts:
+            check_clone(s, 'at the start state')
+            if not prepeek and not done:
+                same_stream(s, 'cloned at the start state')
+            s.events = []
+            for kind, s2, val in ex.call_fn(s.fork(), nxt, [Ref(0, 'lx')]):
+                h.stats['paths'] += 1
+                if kind != 'return':
+                    continue
+                got = h.item_shape(val)
+                h.cover({'tok': 'token', 'invalid': 'invalid', 'custom': 'custom', 'none': 'none'}[got[0]])
+                check_clone(s2, 'after an item of kind ' + got[0])
+            if not prepeek and not done and not out:
+                # the expensive schedule last, and only if nothing was found yet
+                run_ahead(s, 'cloned at the start state')
+    except OverBudget:
+        if not out:
+            raise
+        # counterexamples found before the budget ran out are kept
     return out
